@@ -134,6 +134,44 @@ fn check(input: &In, case: &mut Case) -> Result<(), Fail> {
     Ok(())
 }
 
+/// packets with K distinct many-label owner names (thousands of distinct suffixes inside the first 16 KiB)
+/// followed by a new name that is used twice
+fn enum_many_names(_t: Tier, shard: usize, n: usize, f: &mut dyn FnMut((u16, u8)) -> bool) {
+    let mut i = 0;
+    for k in [0u16, 1, 8, 16, 31, 32, 33, 34, 40, 64, 100] {
+        for labels in [127u8, 60, 10] {
+            i += 1;
+            if mine(i, shard, n) && !f((k, labels)) {
+                return;
+            }
+        }
+    }
+}
+
+fn check_many_names(input: &(u16, u8), case: &mut Case) -> Result<(), Fail> {
+    let (k, labels) = *input;
+    let mut p = APacket { id: 7, flags: 0x8400, ..Default::default() };
+    for j in 0..k {
+        // `labels` one-byte labels; the last label makes every name (and every one of its suffixes) distinct
+        let mut l: Vec<Bytes> = (0..labels.saturating_sub(2)).map(|x| Bytes(vec![b'a' + (x % 26)])).collect();
+        l.push(Bytes(vec![b'0' + (j / 36 % 36) as u8]));
+        l.push(Bytes(vec![b'A' + (j % 36) as u8]));
+        p.answers.push(ARecord { name: AName(l), class: 1, cache_flush: false, ttl: 1, rdata: ARData::Typed { code: 1, fields: vec![Val::U32(j as u32)] } });
+    }
+    let again = AName::from_strs(&["printer", "office", "example"]);
+    for x in 0..2u32 {
+        p.additionals.push(ARecord { name: again.clone(), class: 1, cache_flush: false, ttl: 1, rdata: ARData::Typed { code: 1, fields: vec![Val::U32(x)] } });
+    }
+    let p = crate::gen::fit(p);
+    let pk = lib("build", || build(&p))?.map_err(|e| Fail::new("harness:build", e))?;
+    let c = ser_compressed(&pk).map_err(|f| Fail::new("c07:compressed-failed", f.msg))?;
+    let npointers = check_pointers(&c, case)?;
+    case.nontrivial = npointers >= 1;
+    let (back, _) = decode_message(&c).map_err(|e| Fail::new("c07:undecodable", format!("{:?}", e)))?;
+    ensure!(back == p, "c07:expands-wrong", "{}", diff(&p, &back));
+    Ok(())
+}
+
 fn strategy(t: Tier) -> BoxedStrategy<In> {
     (gen::sharing(t), prop_oneof![2 => Just(0u16), 1 => any::<u16>()]).boxed()
 }
@@ -143,7 +181,10 @@ pub fn def() -> CheckDef {
         id: "C07",
         rule: "proptest: suffix-sharing packets (as C03, crossing 16 KiB) written with build_bytes_vec_compressed with write_compressed_to on a cursor starting at offset k>0 and on a writer that accepts only 1..5 bytes per write call; an independent schema-aware walker locates every name occurrence (question, owner, RDATA names by type) and checks: every pointer strictly backwards, <= 16383, onto a label start of an earlier-written name, relative to the first byte of the message; reference decoding gives the model's names; no pointer inside SRV/NAPTR/KX/RRSIG/NSEC/IPSECKEY/SVCB/HTTPS names; a question/owner/RFC 1035 RDATA name already written in full at an offset <= 16383 is a single 2-byte pointer. Non-trivial = at least one pointer in the output",
         assumptions: vec!["RP/AFSDB/RT/NSAP-PTR names (RFC 1183/1348) are class 'may': compressed or not is accepted", "same exclusions as C02"],
-        sections: vec![Box::new(PropSection { name: "pointers", rule: "pointer validity and use", strategy, cases: (200_000, 1_500_000), check })],
+        sections: vec![
+            Box::new(PropSection { name: "pointers", rule: "pointer validity and use", strategy, cases: (200_000, 1_500_000), check }),
+            Box::new(EnumSection { name: "many-names", rule: "0..100 distinct many-label names before a repeated name", enumerate: enum_many_names, check: check_many_names, exhaustive: true }),
+        ],
     }
 }
 
